@@ -86,6 +86,19 @@ pub fn check(ctx: &Ctx, st: &mut Stats, c: &Case) {
     let (s, e) = (s2d(&c.start), s2d(&c.end));
     let dr = DateRange::from(s..=e);
     let n = model_days(s, e);
+    // route diversity: the same range rebuilt through serde (the CLI's parameter files take this route)
+    match guarded(|| serde_json::to_string(&dr).ok().and_then(|t| serde_json::from_str::<DateRange>(&t).ok())) {
+        Ok(Some(dr2)) => {
+            st.count("serde_roundtrip_ranges");
+            st.evaluations += 1;
+            let same = dr2 == dr && guarded(|| dr2.num_days()).ok() == guarded(|| dr.num_days()).ok() && dr2.start_date() == dr.start_date() && dr2.end_date() == dr.end_date();
+            let parts_same = c.parts.iter().take(3).all(|k| guarded(|| dr2.partition(*k)).ok() == guarded(|| dr.partition(*k)).ok());
+            if !same || !parts_same {
+                st.violate("deserialized_range_differs", c, json!({"num_days_from": guarded(|| dr.num_days()).ok().map(|x| x.to_string()), "num_days_deserialized": guarded(|| dr2.num_days()).ok().map(|x| x.to_string())}));
+            }
+        }
+        _ => st.violate("range_serde_roundtrip_fails", c, json!({})),
+    }
     let span = (ce(e) - ce(s)) as i64 + 1;
     st.decided += 1;
     st.count(if span <= 0 { "ranges.empty_or_reversed" } else { "ranges.nonempty" });
@@ -265,6 +278,35 @@ pub fn run(ctx: &Ctx, st: &mut Stats) {
         if k < 2 {
             st.sample(|| json!(c));
         }
+    }
+    // history diversity: month-after-month style chains — a range call followed, on the same thread, by a range
+    // that starts on (or right after) the previous range's last date for a DIFFERENT location
+    let nch = ctx.quota(400, 20_000);
+    for _ in 0..nch {
+        let s0 = from_ce(r.int(day_lo() as i64, day_hi() as i64 - 400) as i32);
+        let len1 = r.int(1, 60);
+        let e0 = from_ce(ce(s0) + len1 as i32 - 1);
+        let lon = gen::any_lon(&mut r);
+        let site1 = Site::new(gen::lat_within(&mut r, 60.0), lon, 0.0, gen::gmt_near(&mut r, lon, 2.0));
+        let mut site2 = site1;
+        match r.int(0, 2) {
+            0 => site2.gmt = X(if site1.gmt.0 + 1.0 <= 12.0 { site1.gmt.0 + 1.0 } else { site1.gmt.0 - 1.0 }),
+            1 => site2.lat = X(-site1.lat.0),
+            _ => {
+                let lon2 = gen::any_lon(&mut r);
+                site2 = Site::new(gen::lat_within(&mut r, 60.0), lon2, 0.0, gen::gmt_near(&mut r, lon2, 2.0));
+            }
+        }
+        let method = r.int(0, 8) as usize;
+        let p = params_for(method, false);
+        let _ = guarded(|| prayer_times_dt_rng(&p, site1.loc(), &DateRange::from(s0..=e0)));
+        st.evaluations += 1;
+        let s1 = from_ce(ce(e0) + r.int(0, 1) as i32);
+        let e1 = from_ce(ce(s1) + r.int(1, 40) as i32 - 1);
+        let c = Case { start: d2s(s1), end: d2s(e1), parts: vec![2, 3], rng: Some((site2, method, false)) };
+        check(ctx, st, &c);
+        st.count("chained_range_calls");
+        st.nontrivial_key(hash64(&format!("ch{}{}{:?}", c.start, c.end, site2)));
     }
     st.extra.insert("rule".into(), json!("exhaustive: 60+ hostile start dates x spans -5..70 x part counts 0..64 (num_days and partition against the day-count model; the sequential range API against the single-date API on a rotating subset, reversed/empty ranges in a guarded subprocess with 20 CPU-s / 3 GB limits); seeded random: spans -2000..2000, part counts 0..64; every range is non-trivial (distinct (start,end) by hash)"));
 }
